@@ -92,6 +92,48 @@ def design_level(thorough, res):
         res["error"] = ex
 
 
+APALACHE_RUNS = [   # (name, args, expected outcome)
+    ("init_establishes_IndInv", ["--cinit=CInit", "--init=Init", "--inv=IndInv", "--length=0"], "NoError"),
+    ("IndInv_is_inductive", ["--cinit=CInit", "--init=IndInit", "--inv=IndInv", "--length=1"], "NoError"),
+    ("stale_variant_not_inductive", ["--cinit=CInitStale", "--init=IndInit", "--inv=IndInv", "--length=1"], "Error"),
+    ("stale_variant_violates_Sandwich_from_Init", ["--cinit=CInitStale", "--init=Init", "--inv=Sandwich", "--length=10"], "Error"),
+]
+
+
+def unbounded_evidence(res):
+    """Optional extra (thorough tier): Apalache proves the inductive invariant of WaiterInd.tla (NoEarly, Sandwich,
+    NeverDiscardOff for ALL integer clock values, token instants, MAX > 0, any descheduling).  A tool failure is a
+    note in the evidence, never a verdict and never a machinery failure."""
+    import shutil
+    import subprocess
+    out = {"tool": "apalache-mc", "module": "WaiterInd.tla", "runs": {}, "status": "not run"}
+    try:
+        exe = shutil.which("apalache-mc")
+        if not exe:
+            out["status"] = "apalache-mc not installed"
+            return
+        d = vlib.scratch("c04-apalache-")
+        shutil.copy(os.path.join(vlib.SPEC, "WaiterInd.tla"), d)
+        ok = True
+        for name, args, expect in APALACHE_RUNS:
+            t0 = time.time()
+            try:
+                p = subprocess.run(["timeout", "300", exe, "check"] + args + ["--out-dir=" + os.path.join(d, "out"), "WaiterInd.tla"],
+                                   cwd=d, stdout=subprocess.PIPE, stderr=subprocess.STDOUT, text=True, timeout=330)
+                m = [ln for ln in p.stdout.splitlines() if "The outcome is:" in ln]
+                outcome = m[-1].split("The outcome is:")[1].split()[0] if m else "tool failure rc=%s" % p.returncode
+            except Exception as ex:  # noqa
+                outcome = "tool failure: %s" % ex
+            out["runs"][name] = {"outcome": outcome, "expected": expect, "wall_s": round(time.time() - t0, 1)}
+            ok = ok and outcome == expect
+        out["status"] = ("inductive invariant discharged for unbounded integer time (and both negative controls fail as they must)"
+                         if ok else "NOT discharged (see runs) - no claim of unbounded evidence in this run")
+    except Exception as ex:  # noqa
+        out["status"] = "tool failure: %s" % ex
+    finally:
+        res["unbounded"] = out
+
+
 def scripts_from_tlc(n_walks, n_pick, first_id=1, cfg="Timing_sim.cfg"):
     lazy = cfg == "Timing_simlazy.cfg"
     r = vlib.tlc("TimingMC", cfg, workers=1, simulate="num=%d" % n_walks, depth=3000, seed_=vlib.seed(),
@@ -235,6 +277,10 @@ def run(tier, v):
     design = {}
     th = threading.Thread(target=design_level, args=(thorough, design))
     th.start()
+    unb = {}
+    uth = threading.Thread(target=unbounded_evidence, args=(unb,)) if thorough else None
+    if uth:
+        uth.start()
     try:
         d = vlib.scratch("c04-timing-")
         n_scripts, n_gap, n_lazy, n_random, n_walks, n_confs = (140, 60, 100, 160, 3000, 60) if thorough else (20, 8, 10, 28, 800, 12)
@@ -275,6 +321,8 @@ def run(tier, v):
         rep, rows, tstates = validate(v, out, cases)
     finally:
         th.join()
+        if uth:
+            uth.join()
     if "error" in design:
         raise design["error"]
     script_toks = sum(len(c["toks"]) for c in scripts)
@@ -311,6 +359,8 @@ def run(tier, v):
         "trace_states": tstates, "driver_wall_s": round(drv_wall, 1),
         "exhaustive": False,
     }
+    if thorough:
+        cov["unbounded_evidence"] = unb.get("unbounded", {"status": "not run"})
     return "model_checking", cov, [
         "exhaustive TLC bounds: 3 tokens (4 in thorough), gaps {0,1,3,5,30} ticks, responses {0,5,25,35} ticks, 1-2 instances, "
         "lazy-tick budget 2 with one instance (2 with two instances and 22 with one instance in thorough); 3 instances x 4 tokens "
